@@ -245,6 +245,22 @@ def executeSig (db : UniDb) (cmds : Str → Option Sig) (line : Str) : Exec :=
         | some as => .call name as
         | none => .badArg
 
+/-- `execute` from a given parse (the `ParseResult` list `parse_partial` hands out / keeps cached): what the
+    command receives is a function of that list alone -/
+def executeToks (db : UniDb) (cmds : Str → Option Sig) (toks : List Str) : Exec :=
+  match (toks.filter (fun t => !isSpaceTok t)).map unquote with
+  | [] => .noCommand
+  | name :: args =>
+    match cmds name with
+    | none => .unknown
+    | some sig =>
+      match bindTys sig args.length with
+      | none => .arity
+      | some tys =>
+        match collect (List.zipWith (parseArg db) tys args) with
+        | some as => .call name as
+        | none => .badArg
+
 /-- the command line the console builds: the command and the quoted arguments, separated by one space -/
 def cmdline (cmd : Str) (args : List Str) : Str := cmd ++ args.flatMap (fun a => 32 :: quote a)
 
